@@ -436,7 +436,7 @@ pub fn tm_fl(x: f64) -> Xt {
 pub fn tm_bytes(b: &[u8]) -> Xt {
     Xt::B(b.to_vec())
 }
-pub fn tm_pv(v: &plist::Value) -> Xt {
+pub fn tm_pv_o(v: &plist::Value, sorted: bool) -> Xt {
     match v {
         plist::Value::String(s) => Xt::L(vec![Xt::N(0), Xt::s(s)]),
         plist::Value::Integer(i) => {
@@ -450,24 +450,26 @@ pub fn tm_pv(v: &plist::Value) -> Xt {
         plist::Value::Boolean(b) => Xt::L(vec![Xt::N(3), Xt::b(*b)]),
         plist::Value::Data(d) => Xt::L(vec![Xt::N(4), tm_bytes(d)]),
         plist::Value::Date(d) => Xt::L(vec![Xt::N(5), Xt::s(&d.to_xml_format())]),
-        plist::Value::Array(a) => Xt::L(vec![Xt::N(6), Xt::L(a.iter().map(tm_pv).collect())]),
-        plist::Value::Dictionary(d) => tm_dict(d),
+        plist::Value::Array(a) => Xt::L(vec![Xt::N(6), Xt::L(a.iter().map(|x| tm_pv_o(x, sorted)).collect())]),
+        plist::Value::Dictionary(d) => tm_dict_o(d, sorted),
         _ => Xt::L(vec![Xt::N(9)]),
     }
 }
-pub fn tm_dict(d: &plist::Dictionary) -> Xt {
+pub fn tm_dict_o(d: &plist::Dictionary, sorted: bool) -> Xt {
     let mut kv: Vec<(&String, &plist::Value)> = d.iter().collect();
-    kv.sort_by(|a, b| a.0.as_bytes().cmp(b.0.as_bytes()));
+    if sorted {
+        kv.sort_by(|a, b| a.0.as_bytes().cmp(b.0.as_bytes()));
+    }
     Xt::L(vec![
         Xt::N(7),
-        Xt::L(kv.into_iter().map(|(k, v)| Xt::L(vec![Xt::s(k), tm_pv(v)])).collect()),
+        Xt::L(kv.into_iter().map(|(k, v)| Xt::L(vec![Xt::s(k), tm_pv_o(v, sorted)])).collect()),
     ])
 }
 fn tm_ostr<T: AsRef<str>>(o: Option<T>) -> Xt {
     Xt::opt(o.map(|s| Xt::s(s.as_ref())))
 }
-fn tm_olib(o: Option<&norad::Plist>) -> Xt {
-    Xt::opt(o.map(tm_dict))
+fn tm_olib(o: Option<&norad::Plist>, sorted: bool) -> Xt {
+    Xt::opt(o.map(|d| tm_dict_o(d, sorted)))
 }
 fn tm_ocolor(c: &Option<norad::Color>) -> Xt {
     Xt::opt(c.as_ref().map(|c| {
@@ -494,7 +496,7 @@ pub fn ptype_code(t: &PointType) -> u64 {
         PointType::QCurve => 4,
     }
 }
-pub fn tm_glyph(g: &Glyph) -> Xt {
+pub fn tm_glyph_o(g: &Glyph, sorted: bool) -> Xt {
     let guides = g
         .guidelines
         .iter()
@@ -504,7 +506,7 @@ pub fn tm_glyph(g: &Glyph) -> Xt {
                 Line::Horizontal(y) => Xt::L(vec![Xt::N(1), tm_fl(y)]),
                 Line::Angle { x, y, degrees } => Xt::L(vec![Xt::N(2), tm_fl(x), tm_fl(y), tm_fl(degrees)]),
             };
-            Xt::L(vec![l, tm_ostr(x.name.as_ref()), tm_ocolor(&x.color), tm_ostr(x.identifier()), tm_olib(x.lib())])
+            Xt::L(vec![l, tm_ostr(x.name.as_ref()), tm_ocolor(&x.color), tm_ostr(x.identifier()), tm_olib(x.lib(), sorted)])
         })
         .collect();
     let anchors = g
@@ -517,14 +519,14 @@ pub fn tm_glyph(g: &Glyph) -> Xt {
                 tm_ostr(a.name.as_ref()),
                 tm_ocolor(&a.color),
                 tm_ostr(a.identifier()),
-                tm_olib(a.lib()),
+                tm_olib(a.lib(), sorted),
             ])
         })
         .collect();
     let comps = g
         .components
         .iter()
-        .map(|c| Xt::L(vec![Xt::s(c.base.as_str()), tm_transform(&c.transform), tm_ostr(c.identifier()), tm_olib(c.lib())]))
+        .map(|c| Xt::L(vec![Xt::s(c.base.as_str()), tm_transform(&c.transform), tm_ostr(c.identifier()), tm_olib(c.lib(), sorted)]))
         .collect();
     let contours = g
         .contours
@@ -541,11 +543,11 @@ pub fn tm_glyph(g: &Glyph) -> Xt {
                         Xt::b(p.smooth),
                         tm_ostr(p.name.as_ref()),
                         tm_ostr(p.identifier()),
-                        tm_olib(p.lib()),
+                        tm_olib(p.lib(), sorted),
                     ])
                 })
                 .collect();
-            Xt::L(vec![tm_ostr(c.identifier()), tm_olib(c.lib()), Xt::L(pts)])
+            Xt::L(vec![tm_ostr(c.identifier()), tm_olib(c.lib(), sorted), Xt::L(pts)])
         })
         .collect();
     let image = Xt::opt(g.image.as_ref().map(|i| {
@@ -562,8 +564,18 @@ pub fn tm_glyph(g: &Glyph) -> Xt {
         Xt::L(anchors),
         Xt::L(comps),
         Xt::L(contours),
-        tm_dict(&g.lib),
+        tm_dict_o(&g.lib, sorted),
     ])
+}
+
+pub fn tm_pv(v: &plist::Value) -> Xt {
+    tm_pv_o(v, true)
+}
+pub fn tm_dict(d: &plist::Dictionary) -> Xt {
+    tm_dict_o(d, true)
+}
+pub fn tm_glyph(g: &Glyph) -> Xt {
+    tm_glyph_o(g, true)
 }
 
 pub fn err_code(e: &GlifLoadError) -> (u64, String) {
